@@ -98,11 +98,29 @@ fn display_expected(ents: &[(u64, u64)], set: bool) -> String {
     s
 }
 
+/// What `Display` may render under a format specification. The statement fixes the literal form
+/// `{k: v, k: v}`; it says nothing about width, fill, precision or sign flags, so two readings are
+/// accepted: the flags are ignored (or handed to the elements, which ignore them here), or the
+/// literal form as a whole is padded / truncated the way `Formatter::pad` does it for a string.
+fn display_accept(ents: &[(u64, u64)], set: bool, spec: u8) -> Vec<String> {
+    let lit = display_expected(ents, set);
+    let mut v = vec![lit.clone()];
+    if spec % 8 != 0 && spec % 8 != 7 {
+        let mut padded = String::new();
+        let _ = fmt_disp!(padded, spec, lit.as_str());
+        if padded != lit {
+            v.push(padded);
+        }
+    }
+    v
+}
+
 fn ids(s: &Snap) -> Vec<(u64, u64)> {
     s.iter().map(|e| (e.kid, e.vid)).collect()
 }
 
-fn finish<K: SimK, V: SimV>(cx: &mut Cx<K, V>, what: &str, r: std::thread::Result<fmt::Result>, sink: &Sink, expected: &str) {
+fn finish<K: SimK, V: SimV>(cx: &mut Cx<K, V>, what: &str, r: std::thread::Result<fmt::Result>, sink: &Sink, accept: &[String]) {
+    let expected = &accept[0];
     let failed = sink.failed || sink.elem_failed;
     match r {
         Err(p) => {
@@ -116,7 +134,7 @@ fn finish<K: SimK, V: SimV>(cx: &mut Cx<K, V>, what: &str, r: std::thread::Resul
             if !failed {
                 if res.is_err() {
                     violate("wrong-text", format!("{what}: formatting into a healthy sink reported an error"));
-                } else if sink.text() != expected {
+                } else if !accept.iter().any(|e| e == sink.text()) {
                     violate("wrong-text", format!("{what}: rendered {:?} but the entries seen through iteration render as {:?}", sink.text(), expected));
                 }
             } else {
@@ -141,15 +159,15 @@ pub fn fmt_map<K: SimK, V: SimV, const C: usize>(m: &Map<K, V, C>, cx: &mut Cx<K
     sink.elem_failed = crate::env::take_fmt_elem_failed();
     let e = ids(pre);
     let _p = crate::alloc::Pause::new();
-    let expected = match style {
-        Style::Display => display_expected(&e, false),
+    let accept = match style {
+        Style::Display => display_accept(&e, false, spec),
         _ => {
             let mut s = String::new();
             let _ = fmt_dbg!(s, style, spec, MirrorMap(&e));
-            s
+            vec![s]
         }
     };
-    finish(cx, "Map formatting", r, &sink, &expected);
+    finish(cx, "Map formatting", r, &sink, &accept);
 }
 
 pub fn fmt_set<K: SimK, V: SimV, const C: usize>(s: &Set<K, C>, cx: &mut Cx<K, V>, style: Style, spec: u8, sc: SinkCfg, pre: &Snap) {
@@ -161,15 +179,15 @@ pub fn fmt_set<K: SimK, V: SimV, const C: usize>(s: &Set<K, C>, cx: &mut Cx<K, V
     sink.elem_failed = crate::env::take_fmt_elem_failed();
     let e = ids(pre);
     let _p = crate::alloc::Pause::new();
-    let expected = match style {
-        Style::Display => display_expected(&e, true),
+    let accept = match style {
+        Style::Display => display_accept(&e, true, spec),
         _ => {
             let mut t = String::new();
             let _ = fmt_dbg!(t, style, spec, MirrorSet(&e));
-            t
+            vec![t]
         }
     };
-    finish(cx, "Set formatting", r, &sink, &expected);
+    finish(cx, "Set formatting", r, &sink, &accept);
 }
 
 /// Checks the Debug text of an iterator / drain against the identities it has not yet yielded.
